@@ -84,18 +84,15 @@ def canonical(sig):
 
 
 def unspecified(text):
-    """not in the language, but only because of single commas next to a parenthesis / side
-    boundary (e.g. '(X:center,)'): the statement lists doubled commas, not these."""
+    """not in the language, but only because of a single comma in front of a closing parenthesis ('(X:center,)', the
+    trailing comma numpy's own gufunc signatures tolerate): the statement lists doubled commas and stray characters, and a
+    comma that still sits inside its argument is not clearly either.  A comma *outside* the parentheses that separates
+    nothing ('(X:center),->()', '()->(),', ',()->()') or one after an opening parenthesis is a stray character / an empty
+    pair and must be refused."""
     s = text.replace(" ", "")
     if ",," in s or in_language(s):
         return False
-    t = s
-    for a, b in (("(,", "("), (",)", ")"), (",->", "->"), ("->,", "->")):
-        t = t.replace(a, b)
-    if t.startswith(","):
-        t = t[1:]
-    if t.endswith(","):
-        t = t[:-1]
+    t = s.replace(",)", ")")
     return t != s and in_language(t)
 
 
